@@ -44,7 +44,7 @@ CLAIMS = {
  'C12': ("modes_agree: one well-formed graph, no root edge on a continuation byte, matches ending on char boundaries (C04) => lexing as str and as [u8] gives the same Ok items with the same spans and the same list of bytes covered by errors (byte mode splits a rounded-up error into one-byte errors); every str-mode corpus definition is compiled a second time with utf8 = false and both compiled lexers are run on the same valid UTF-8 inputs; captured graphs compared; root checked.",
          "acceptance of non-UTF-8 patterns only in byte mode is decided by utf8ClosedB in C04 and exercised in C19; byte-mode lexing of arbitrary bytes is part of C01/C02's corpus.",
          "Lean theorem for all graphs/inputs + twin-definition correspondence"),
- 'C13': ("construct / constructSkip model every CallbackRetVal / SkipRetVal impl row by row; lex_eq_spec holds for every callback table, so skips, custom errors and emitted variants are those of the reference lexer; zoo definitions carry callbacks of every supported return type, an error callback and bumping callbacks.",
+ 'C13': ("construct / constructSkip model every CallbackRetVal / SkipRetVal impl row by row; lex_eq_spec holds for every callback table, so skips, custom errors and emitted variants are those of the reference lexer; calls_eq_spec / calls_eq_specC: a validated lexer invokes callbacks exactly as often as the reference lexer (one invocation per winning match of a leaf with a callback), and the compiled lexers' invocation counts (every zoo callback announces itself) are compared with both; zoo definitions carry callbacks of every supported return type, an error callback and bumping callbacks.",
          "callback bodies are executed, not modelled (same pure decision on both sides).",
          "Lean theorem (for all callback tables) + correspondence with every return type"),
  'C14': ("Pool-of-lexers model of the public API (next, spanned next, bump, clone, morph); api_in_range: for two well-formed graphs over one source and any finite call sequence every lexer keeps start <= end <= len, so slice()/remainder() are total; clone_independent, morph_preserves, morph_twice, spanned_eq_manual; random histories run on the real Lexer (4 builds; span/slice/remainder/extras checked after every call) and on the model over the captured graphs of the same two token types.",
